@@ -30,13 +30,14 @@ KEYS = {
     'under2': ('_other', '_other', r'\_other'),
     'sd1': ('sym', 'Aleph', 'sym@Aleph'),
     'sd2': ('sym', 'Beth', 'sym@Beth'),
+    'boldalpha': ('alpha', 'alpha*b', r'alpha@\textbf{alpha}'),      # same sort key and same display TEXT as alpha, different markup
     'sub': ('sub', 'sub', 'sub'),
     'Sub2': ('Sub2', 'Sub2', 'Sub2'),
 }
 PATHS = [['alpha'], ['alpha', 'sub'], ['alpha', 'Sub2'], ['alpha', 'sub', 'Sub2'], ['Beta'], ['elan'], ['echo'], ['zeta'], ['one'], ['plus'],
          ['under'], ['under2'], ['sortdisp'], ['quoted'], ['sd1'], ['sd2'], ['Beta', 'sub'], ['zeta', 'sub', 'Sub2'], ['alpha', 'sd1'], ['alpha', 'sd2'],
          # two top-level keys with the same sort key and different display text, with sub-entries that interleave
-         ['sd1', 'alpha'], ['sd2', 'echo'], ['sd1', 'zeta']]
+         ['sd1', 'alpha'], ['sd2', 'echo'], ['sd1', 'zeta'], ['boldalpha']]
 
 
 def collator():
@@ -79,7 +80,10 @@ def code_collator():
 
 def mc_module():
     strings = sorted(set(s for k in KEYS.values() for s in k[:2]))
-    col = code_collator()
+    col0 = code_collator()
+    col = lambda x: col0(x.replace('*b', ''))          # the *b suffix stands for markup: it does not take part in collation
+    written = sorted(set(v[2].split('@')[-1] for v in KEYS.values()))
+    tie = dict((v[1], written.index(v[2].split('@')[-1]) + 1) for v in KEYS.values())
     keyed = sorted(set(tuple(col(s)) if not isinstance(col(s), str) else col(s) for s in strings))
     rank = dict((s, keyed.index(tuple(col(s)) if not isinstance(col(s), str) else col(s)) + 1) for s in strings)
 
@@ -90,11 +94,13 @@ EXTENDS Index
 MCKeys == %s
 MCRank == %s
 MCInitial == %s
+MCTie == %s
 MCPaths == {%s}
 ====
 ''' % ('(' + ' @@ '.join('%s :> [sort |-> %s, disp |-> %s]' % (q(n), q(v[0]), q(v[1])) for n, v in KEYS.items()) + ')',
        '(' + ' @@ '.join('%s :> %d' % (q(s), r) for s, r in rank.items()) + ')',
        '(' + ' @@ '.join('%s :> %s' % (q(v[0]), q(initial(v[0]))) for v in KEYS.values()) + ')',
+       '(' + ' @@ '.join('%s :> %d' % (q(k), n) for k, n in tie.items()) + ')',
        ', '.join('<<' + ', '.join(q(k) for k in p) + '>>' for p in PATHS))
 
 
@@ -102,6 +108,8 @@ CFG = '''CONSTANTS
   Keys <- MCKeys
   Rank <- MCRank
   Initial <- MCInitial
+  Tie <- MCTie
+  TotalOrder = %s
   Paths <- MCPaths
   MaxEntries = %d
   Cols = 2
@@ -166,7 +174,8 @@ def replay_one(beh):
         for c in node.childNodes:
             if not hasattr(c, 'sortkey'):
                 continue
-            p = path + [{'sort': str(c.sortkey), 'disp': str(c.key.textContent)}]
+            bold = any(getattr(x, 'nodeName', None) == 'textbf' for x in c.key.childNodes) if hasattr(c.key, 'childNodes') else False
+            p = path + [{'sort': str(c.sortkey), 'disp': str(c.key.textContent) + ('*b' if bold else '')}]
             pages = []
             for pg in c.pages:
                 fmt = 'see' if pg.see else 'none'
@@ -227,12 +236,13 @@ def run(chk):
     if sorted(probe, key=mine) != sorted(probe, key=theirs):
         chk.violation('collator-selection', 'the index collator orders %s as %s; the selection rule (UCA via pyuca when importable) gives %s'
                       % (probe, sorted(probe, key=theirs), sorted(probe, key=mine)), probe)
+    TO = 'FALSE' if os.environ.get('C18_ASBUILT') else 'TRUE'
     ALLF = '"none", "see", "textbf"'
     maxe = 3
     behs = []
     seenb = set()
     for me, fm in ([(2, ALLF), (3, '"none"')] if tier == 'quick' else [(3, ALLF)]):
-        res = tlc.run('MC_Index', cfg_text=CFG % (me, fm), extra_modules={'MC_Index.tla': mc_module()}, timeout=3400, heap='12g')
+        res = tlc.run('MC_Index', cfg_text=CFG % (TO, me, fm), extra_modules={'MC_Index.tla': mc_module()}, timeout=3400, heap='12g')
         chk.add_tlc(res, 'index(MaxEntries=%d,formats=%s)' % (me, fm))
         if not res.ok:
             chk.violation('design:' + ','.join(res.violated or ['error']),
@@ -244,7 +254,7 @@ def run(chk):
                 behs.append(b)
     # longer sequences by simulation
     nsim, dsim = (600, 6) if tier == 'quick' else (6000, 8)
-    rs = tlc.run('MC_Index', cfg_text=CFG % (dsim, ALLF), extra_modules={'MC_Index.tla': mc_module()}, simulate=nsim, depth=dsim + 2, seed=seed + 3,
+    rs = tlc.run('MC_Index', cfg_text=CFG % (TO, dsim, ALLF), extra_modules={'MC_Index.tla': mc_module()}, simulate=nsim, depth=dsim + 2, seed=seed + 3,
                  timeout=3400, heap='8g', workers=4)
     chk.add_tlc(rs, 'simulate(num=%d,depth=%d)' % (nsim, dsim))
     if rs.violated:
